@@ -22,12 +22,12 @@ MIdx(me) == CASE me = "newton" -> 0 [] me = "eigh" -> 1 [] me = "lobpcg" -> 2
 \* quadratic terms, range < 5e5 - scrambled by a multiplication modulo a prime: slices are fine
 \* grained for every modulus, every coordinate value occurs in every slice of moderate size
 Hash0(c) == c.n * 7 + (c.ps + 1) * 131 + (IF c.fill = "junk" THEN 3001 ELSE 0) + Sum(c.exps) * 17
-            + Len(c.exps) * 1009 + (c.c + 6) * 523 + c.p * 10007 + c.eexp * 257
+            + Len(c.exps) * 1009 + (c.c + 9) * 523 + c.p * 10007 + c.eexp * 257
             + (IF c.rel THEN 50021 ELSE 0) + MIdx(c.method) * 70001 + c.k * 911
-            + c.p * (c.n + Len(c.exps)) * 37 + (c.c + 6) * c.eexp * 101
+            + c.p * (c.n + Len(c.exps)) * 37 + (c.c + 9) * c.eexp * 101
 Hash(c) == (Hash0(c) * 1103) % 1000003
 
-Full == Lattice({1, 2, 3, 5, 8, 16}, {0, 2, 4, 6, 8}, {-6, 0, 6}, 1..8, {6, 12}, BOOLEAN,
+Full == Lattice({1, 2, 3, 5, 8, 16}, {0, 2, 4, 6, 8}, {-9, -6, 0, 6}, 1..8, {6, 12}, BOOLEAN,
                 Methods, {"f64"})
 \* sizes 1..3 have few spectra and would hardly occur in a slice: they are sampled 8x denser
 \* and the LOBPCG variant (a quarter of the lattice, figure honest by construction) 4x sparser
